@@ -289,12 +289,16 @@ def gen_project(d, vast, state, pep_shaped, max_files=5, max_patterns=4, unicode
         if patterns and d.bool():
             content += occurrence_text(patterns[0], vast, state) + "\n"  # would match, but is not configured
         bystanders.append({"path": "other/bystander%d.txt" % j, "content": content})
+    # some plain entries are written as ./path in the config: the same file, whatever the spelling (it may also be
+    # covered by a glob entry, whose patterns then apply to it as well)
+    dot_slash = [key for key, _idx in entries if "*" not in key and d.chance(1, 5)]
     return {"ast": vast, "state": state, "pep_shaped": pep_shaped, "patterns": patterns, "entries": entries, "files": files,
-            "bystanders": bystanders, "explicit_config_entry": d.chance(1, 4), "config_marks": config_marks}
+            "bystanders": bystanders, "explicit_config_entry": d.chance(1, 4), "config_marks": config_marks, "dot_slash_keys": dot_slash}
 
 
 def project_config(spec, old, options=None):
-    files = [[key, [spec["patterns"][i]["raw"] for i in idx]] for key, idx in spec["entries"]]
+    dot = set(spec.get("dot_slash_keys", []))
+    files = [["./" + key if key in dot else key, [spec["patterns"][i]["raw"] for i in idx]] for key, idx in spec["entries"]]
     if spec.get("explicit_config_entry"):
         files.insert(0, ["bumpver.toml", ['current_version = "{version}"']])
     vp = spec.get("pattern_text") or pattern_str(spec["ast"])
